@@ -32,7 +32,16 @@ def main():
         if os.environ.get('PYVC_FORCE_FALLBACK'):       # development aid: exercise the bounded stand-in path
             raise EngineError('forced by PYVC_FORCE_FALLBACK')
         mod.build(sess)
+        diff_bad = []
+        if args.tier == 'thorough' or os.environ.get('PYVC_DIFF'):
+            from . import difftest
+            diff_bad = difftest.run_for_property(sess)
         code = sess.finish()
+        if diff_bad:
+            for b in diff_bad[:10]:
+                print(f"CHECKER-ERROR engine-vs-CPython disagreement: {b['function']}{b['args']}: engine {b['engine']} / CPython {b['native']}")
+            if code == EXIT_OK:
+                code = EXIT_CHECKER
     except EngineError as e:
         # the (changed) code is outside the executor's subset: a bounded native check of the same contract stands in,
         # labelled bounded; it can only confirm a violation with a concrete input or report that it found none
